@@ -323,35 +323,38 @@ class VizierServicer(vizier_service_pb2_grpc.VizierServiceServicer):
       output_op = operations_pb2.Operation(name=new_op_name, done=False)
       self.datastore.create_suggestion_operation(output_op)
 
-      # Check how many ACTIVE trials already exist for this client only.
-      all_trials = self.datastore.list_trials(study_name)
-      active_trials = [
-          t
-          for t in all_trials
-          if t.state == study_pb2.Trial.State.ACTIVE
-          and t.client_id == request.client_id
-      ]
-      if len(active_trials) >= request.suggestion_count:
-        output_op.response.value = vizier_service_pb2.SuggestTrialsResponse(
-            trials=active_trials[: request.suggestion_count],
-            start_time=start_time,
-        ).SerializeToString()
-        output_op.done = True
-        self.datastore.update_suggestion_operation(output_op)
-        return output_op
+      # Stored trials are rewritten below: hold the study lock like every other
+      # RPC that edits trial rows (metadata merges included).
+      with self._study_name_to_lock[study_name]:
+        # Check how many ACTIVE trials already exist for this client only.
+        all_trials = self.datastore.list_trials(study_name)
+        active_trials = [
+            t
+            for t in all_trials
+            if t.state == study_pb2.Trial.State.ACTIVE
+            and t.client_id == request.client_id
+        ]
+        if len(active_trials) >= request.suggestion_count:
+          output_op.response.value = vizier_service_pb2.SuggestTrialsResponse(
+              trials=active_trials[: request.suggestion_count],
+              start_time=start_time,
+          ).SerializeToString()
+          output_op.done = True
+          self.datastore.update_suggestion_operation(output_op)
+          return output_op
 
-      # Get suggestions from the pool of requested trials.
-      output_trials = active_trials
-      requested_trials = [
-          t for t in all_trials if t.state == study_pb2.Trial.State.REQUESTED
-      ]
-      while requested_trials and request.suggestion_count > len(output_trials):
-        assigned_trial = requested_trials.pop()
-        assigned_trial.state = study_pb2.Trial.State.ACTIVE
-        assigned_trial.client_id = request.client_id
-        assigned_trial.start_time.CopyFrom(start_time)
-        self.datastore.update_trial(assigned_trial)
-        output_trials.append(assigned_trial)
+        # Get suggestions from the pool of requested trials.
+        output_trials = active_trials
+        requested_trials = [
+            t for t in all_trials if t.state == study_pb2.Trial.State.REQUESTED
+        ]
+        while requested_trials and request.suggestion_count > len(output_trials):
+          assigned_trial = requested_trials.pop()
+          assigned_trial.state = study_pb2.Trial.State.ACTIVE
+          assigned_trial.client_id = request.client_id
+          assigned_trial.start_time.CopyFrom(start_time)
+          self.datastore.update_trial(assigned_trial)
+          output_trials.append(assigned_trial)
 
       if len(output_trials) == request.suggestion_count:
         # We've finished collecting enough trials from the REQUESTED pool.
@@ -416,15 +419,16 @@ class VizierServicer(vizier_service_pb2_grpc.VizierServiceServicer):
 
       # Write the metadata update to the datastore.
       try:
-        self.datastore.update_metadata(
-            study_name,
-            svz.metadata_util.make_key_value_list(
-                suggest_decision.metadata.on_study
-            ),
-            svz.metadata_util.trial_metadata_to_update_list(
-                suggest_decision.metadata.on_trials
-            ),
-        )
+        with self._study_name_to_lock[study_name]:
+          self.datastore.update_metadata(
+              study_name,
+              svz.metadata_util.make_key_value_list(
+                  suggest_decision.metadata.on_study
+              ),
+              svz.metadata_util.trial_metadata_to_update_list(
+                  suggest_decision.metadata.on_trials
+              ),
+          )
       except KeyError as e:
         output_op.error.CopyFrom(
             status_pb2.Status(code=code_pb2.Code.INTERNAL, message=str(e))
@@ -771,15 +775,16 @@ class VizierServicer(vizier_service_pb2_grpc.VizierServiceServicer):
           early_stopping_decisions_proto
       )
       # Update metadata from result.
-      self.datastore.update_metadata(
-          study_name,
-          svz.metadata_util.make_key_value_list(
-              early_stopping_decisions.metadata.on_study
-          ),
-          svz.metadata_util.trial_metadata_to_update_list(
-              early_stopping_decisions.metadata.on_trials
-          ),
-      )
+      with self._study_name_to_lock[study_name]:
+        self.datastore.update_metadata(
+            study_name,
+            svz.metadata_util.make_key_value_list(
+                early_stopping_decisions.metadata.on_study
+            ),
+            svz.metadata_util.trial_metadata_to_update_list(
+                early_stopping_decisions.metadata.on_trials
+            ),
+        )
 
       # Pythia does not guarantee that the output_operation's id
       # will be in the decisions.
@@ -946,11 +951,14 @@ class VizierServicer(vizier_service_pb2_grpc.VizierServiceServicer):
       grpc_util.handle_exception(e, context)
 
     try:
-      self.datastore.update_metadata(
-          request.name,
-          [x.metadatum for x in request.delta if not x.HasField('trial_id')],
-          [x for x in request.delta if x.HasField('trial_id')],
-      )
+      # Metadata is merged into the stored study/trial rows: exclude the
+      # read-modify-write sequences of the other RPCs on the same rows.
+      with self._study_name_to_lock[request.name]:
+        self.datastore.update_metadata(
+            request.name,
+            [x.metadatum for x in request.delta if not x.HasField('trial_id')],
+            [x for x in request.delta if x.HasField('trial_id')],
+        )
     except KeyError as e:
       return vizier_service_pb2.UpdateMetadataResponse(
           error_details=';'.join(e.args)
